@@ -79,7 +79,7 @@ func c03Atom(r *rng, depth int) operand {
 	case k == 8:
 		return operand{pick(r, []string{"f(x)", "mean(value)", "now()", "g(x, 2)", "COUNT(v)"}), nil, "call"}
 	case k == 9:
-		return operand{pick(r, []string{"-5", "- 5", "-1.5", "-9223372036854775808", "+7", "-3m"}), nil, "neglit"}
+		return operand{pick(r, []string{"-5", "- 5", "-1.5", "-9223372036854775808", "+7", "-3m", "-1", "-1", "- 1", "+1", "-1.0", "-0", "-2"}), nil, "neglit"}
 	case k == 10 || k == 11:
 		inner := pick(r, []string{"a", "f(x)", "x1", `"my col"`})
 		if depth > 0 && r.chance(1, 2) {
@@ -294,6 +294,17 @@ func propC03(o *out, r *rng, thorough bool) {
 	for _, w := range []string{"((a + b)) * c", "(((a)))", "((a)) + ((b))", "-((a))"} {
 		addParseExprCase(o, w, nil)
 		o.count("nested-parens")
+	}
+	// the literal -1 is how a sign is stored: a written -1 in every operand position must not be taken for one
+	for _, op1 := range []string{"=", "+", "-", "*", "/", "%", "AND", "<", "|", "^"} {
+		for _, op2 := range []string{"+", "-", "*", "/", "%", "&", "<", "OR"} {
+			for _, tail := range []string{"y", "2", "-2", "y * z", "(y)", "f(y)", "-y"} {
+				w := "x " + op1 + " -1 " + op2 + " " + tail
+				if _, err := influxql.ParseExpr(w); err == nil {
+					c03One(o, chain{text: w, ops: nil, rands: []operand{{w, nil, "minus-one"}}}, "minus-one")
+				}
+			}
+		}
 	}
 	for _, w := range []string{"b / -a", "x * -f(y)", "1 % -(a + b)"} {
 		c03One(o, chain{text: w, ops: nil, rands: []operand{{w, nil, "witness"}}}, "witness")
